@@ -334,8 +334,8 @@ def run(ctx):
           ("MC_KeysetHandle_htable_quick", "M:handle API table, keysets <= 2 keys over ID=1..2")]
     if ctx.thorough:
         mc = [("MC_KeysetHandle_mix", "M:2 kinds of material x annotations, ID=1..2, <=2 entries, <=2 handles"),
-              ("MC_KeysetHandle_opts", "M:AddKeyWithOpts (40 option lists, no deviation) x C11 ops, ID=1..3, <=3 entries, <=1 handle"),
               ("MC_KeysetHandle_dev_rest3", "M:AddKeyWithOpts (85 option lists, incl. the deviation) x C11 ops, ID=1..3, <=3 entries, <=1 handle"),
+              ("MC_KeysetHandle_opts", "M:AddKeyWithOpts (40 option lists, no deviation) x C11 ops, ID=1..3, <=3 entries, <=1 handle"),
               ("MC_KeysetHandle_mix1", "M:3 kinds of material x 3 annotation values, ID=1..2, <=2 entries, <=1 handle"),
               ("MC_KeysetHandle_table", "M:AddKeyWithOpts decision table, every option list <= 3"),
               ("MC_KeysetHandle_htable", "M:handle API table, keysets <= 2 keys over ID=1..3, 3 kinds of material")] + mc[:3]
@@ -343,9 +343,10 @@ def run(ctx):
     if skip_m:
         ctx.log("NOTE: (M) skipped (mutation trial against VERIF_REPO: the model-checking stage does not involve the code; not evidence)")
     if not ctx.replay and not skip_m:
-        with cf.ThreadPoolExecutor(max_workers=8) as ex:
-            # the largest configuration gets several workers (vlib runs one multi-worker TLC at a time), the others one each
-            futs = [ex.submit(ctx.model_check, "MC_KeysetHandle", cfg, stage=st, workers=(6 if i == 0 else 1), heap="6g", timeout=3400)
+        with cf.ThreadPoolExecutor(max_workers=12) as ex:
+            # the largest configurations get several workers (vlib runs one multi-worker TLC at a time), the others one each
+            nbig = 2 if ctx.thorough else 1
+            futs = [ex.submit(ctx.model_check, "MC_KeysetHandle", cfg, stage=st, workers=(6 if i < nbig else 1), heap="6g", timeout=3400)
                     for i, (cfg, st) in enumerate(mc)]
             futs += [ex.submit(expect_violation, ctx, "MC_KeysetHandle_dev_err", "ErrLeavesUnchanged",
                                "M:EXPECTED violation of C11 ErrLeavesUnchanged by AddKeyWithOpts"),
